@@ -174,6 +174,7 @@ func init() {
 		m.Intr["regexp.CompilePOSIX"] = func(p *sx.Path, c *ssa.CallCommon, a []sx.Val) sx.Val {
 			n := len(p.Dec)
 			if p.Decide(smt.Var(fmt.Sprintf("regexp.bad.%d", n), smt.Bool)) {
+				p.Ghost["regexp.failed"] = true
 				return sx.Tuple{sx.Ptr{}, p.NewError(sx.Str{S: "bad regular expression"}, sx.Iface{})}
 			}
 			re := p.Alloc(sx.Opaque{Kind: "regexp", V: a[0]})
